@@ -198,32 +198,46 @@ Definition v_mini (st : mini) : val :=
       match ms_mask st with Some x => vN x | None => VT "none" end].
 
 (* ---------- accessor-level sessions (several scales, repeated close) ---------- *)
-Definition get_sops (v : val) : option (list sop) :=
-  match v with
-  | VL l => all_some (map (fun e => match e with
-                                    | VL [VT _; k; VZ x; VZ y; VZ z; VS b] =>
-                                        match getN k with Some k => Some (SStore k x y z b) | None => None end
-                                    | VT _ => Some SClose
-                                    | _ => None end) l)
-  | _ => None
-  end.
+(* ((key chunk_sizes sizes) ...) or ((key chunk_sizes sizes m s p) ...): the
+   scales of the info file; without m s p the request's common triple applies *)
+Definition scale_desc := (N * (list Z * list Z * option sparams))%type.
 
-(* ((key chunk_sizes sizes) ...) : the scales of the info file *)
-Definition get_scales (v : val) : option (list (N * (list Z * list Z))) :=
+Definition get_scales (v : val) : option (list scale_desc) :=
   match v with
   | VL l => all_some (map (fun e => match e with
                                     | VL [k; cs; sz] =>
                                         match getN k, getZs cs, getZs sz with
-                                        | Some k, Some cs, Some sz => Some (k, (cs, sz))
+                                        | Some k, Some cs, Some sz => Some (k, (cs, sz, None))
                                         | _, _, _ => None end
+                                    | VL [k; cs; sz; m; s; p] =>
+                                        match getN k, getZs cs, getZs sz, getN m, getN s, getN p with
+                                        | Some k, Some cs, Some sz, Some m, Some s, Some p =>
+                                            Some (k, (cs, sz, Some {| sp_m := m; sp_s := s; sp_p := p |}))
+                                        | _, _, _, _, _, _ => None end
                                     | _ => None end) l)
   | _ => None
   end.
 
-Definition cfg_of (sp : sparams) (scales : list (N * (list Z * list Z))) (k : N) : option (vspec * sparams) :=
+Definition cfg_of (sp : sparams) (scales : list scale_desc) (k : N) : option (vspec * sparams) :=
   match alookup k scales with
-  | Some (cs, sz) => match mk_vspec cs sz with Ok v => Some (v, sp) | _ => None end
+  | Some (cs, sz, osp) =>
+      match mk_vspec cs sz with
+      | Ok v => Some (v, match osp with Some sp' => sp' | None => sp end)
+      | _ => None end
   | None => None
+  end.
+
+(* session steps: (s key x y z payload) | c | (i (scales...)) *)
+Definition get_iops (sp : sparams) (v : val) : option (list iop) :=
+  match v with
+  | VL l => all_some (map (fun e => match e with
+                                    | VL [VT _; k; VZ x; VZ y; VZ z; VS b] =>
+                                        match getN k with Some k => Some (IOp (SStore k x y z b)) | None => None end
+                                    | VL [VT _; sc] =>
+                                        match get_scales sc with Some sc => Some (IInfo (cfg_of sp sc)) | None => None end
+                                    | VT _ => Some (IOp SClose)
+                                    | _ => None end) l)
+  | _ => None
   end.
 
 Definition v_sout (o : sout) : val :=
@@ -238,21 +252,21 @@ Definition sess_index_raws (st : sess) : list bytes :=
      match index_bytes (ms_hdr (snd km)) with Ok b => [b] | _ => [] end) (sh_minis (snd ksh)))
      (ws_scale (snd kw))) (se_scales st).
 
-Definition sop_payloads (ops : list sop) : list bytes :=
-  flat_map (fun o => match o with SStore _ _ _ _ b => [b] | SClose => [] end) ops.
+Definition iop_payloads (ops : list iop) : list bytes :=
+  flat_map (fun o => match o with IOp (SStore _ _ _ _ b) => [b] | _ => [] end) ops.
 
-Definition run_sess (c : cfg) (t : gz_table) (scales : list (N * (list Z * list Z))) (ops : list sop) : val :=
-  let m1 := if c_dgz c then missing t (sop_payloads ops) else [] in
+Definition run_sess (c : cfg) (t : gz_table) (scales : list scale_desc) (ops : list iop) : val :=
+  let m1 := if c_dgz c then missing t (iop_payloads ops) else [] in
   match m1 with
   | _ :: _ => v_miss m1
   | [] =>
       let denc := enc_of (c_dgz c) t in
-      let '(st0, _) := sess_run (cfg_of (c_sp c) scales) denc (fun b => b) sess_init ops in
+      let '(st0, _) := isess_run denc (fun b => b) (cfg_of (c_sp c) scales) sess_init ops in
       let m2 := if c_igz c then missing t (sess_index_raws st0) else [] in
       match m2 with
       | _ :: _ => v_miss m2
       | [] =>
-          let '(st, os) := sess_run (cfg_of (c_sp c) scales) denc (enc_of (c_igz c) t) sess_init ops in
+          let '(st, os) := isess_run denc (enc_of (c_igz c) t) (cfg_of (c_sp c) scales) sess_init ops in
           VL [VT "ok"; VL (map v_sout os);
               VL (map (fun kd => VL [vN (fst kd); VL (map (fun nb => VL [VS (fst nb); VS (snd nb)]) (snd kd))])
                       (se_fs st))]
@@ -319,9 +333,12 @@ Definition d_c04 (op : string) (a : val) : option val :=
       | Some c, Some t, Some files => Some (VL (map (wf_one c t) files))
       | _, _, _ => Some bad end
   | "c04_session", VL [cf; tb; scales; ops] =>
-      match get_cfg cf, get_table tb, get_scales scales, get_sops ops with
-      | Some c, Some t, Some scales, Some ops => Some (run_sess c t scales ops)
-      | _, _, _, _ => Some bad end
+      match get_cfg cf, get_table tb, get_scales scales with
+      | Some c, Some t, Some scales =>
+          match get_iops (c_sp c) ops with
+          | Some ops => Some (run_sess c t scales ops)
+          | None => Some bad end
+      | _, _, _ => Some bad end
   | "c04_guard", VL [m; s; p; ids] =>
       match getN m, getN s, getN p, getNs ids with
       | Some m, Some s, Some p, Some ids =>
